@@ -483,6 +483,7 @@ def predC08 (c o : Sx) : String :=
     | some (some i, _), some req =>
       (match o with
        | .list [.atom "raw", .atom "nobuild"] => "ok"
+       | .list [.atom "panic", _] => "fail server-panicked-on-request"
        | _ =>
          match parseRawObs o with
          | some obs => verdictOf (P_C08_raw i req obs)
@@ -535,10 +536,12 @@ def predC09 (c o : Sx) : String :=
           | _ => "fail unexpected-rustc-observation")
        | _ => "fail unexpected-compile-observation")
     | none => "fail unparsable-case"
-  | .list [.atom "front", .atom _, src] =>
+  | .list [.atom "front", .atom which, src] =>
     match parseSrc src, o with
     | some (i?, _), .list [.atom "front", _, .atom status, .atom emitted, .atom same] =>
-      verdictOf (P_C09_front i? status (emitted == "t") (if same == "-" then none else some (same == "t")))
+      (match P_C09_front i? status (emitted == "t") (if same == "-" then none else some (same == "t")) with
+       | none => "ok"
+       | some r => if r.endsWith "class=none" then "fail " ++ r ++ " front=" ++ which else "fail " ++ r)
     | _, _ => "fail unexpected-front-observation"
   | .list (.atom "frontmany" :: srcs) =>
     (match srcs.mapM parseSrc, o with
